@@ -29,7 +29,10 @@ type GenCfg struct {
 	// DensePolling: the clock only moves in steps below the 10ms sweep
 	// granularity and leases are short, as with many consumers polling one store.
 	DensePolling bool
-	Weights      map[Kind]int
+	// Churn > 0 enables KChurn operations of Churn..Churn+300 messages (only for
+	// stores without depth limits and without delivered retention).
+	Churn   int
+	Weights map[Kind]int
 }
 
 func DefaultWeights() map[Kind]int {
@@ -413,6 +416,11 @@ func (g *Gen) Next(snap vlib.Snapshot, a *Actor, now time.Time) Op {
 		return Op{Kind: k, IDs: g.idList(snap, func(vlib.Row) bool { return true })}
 	case KStats:
 		return Op{Kind: k}
+	case KChurn:
+		if g.Cfg.Churn <= 0 {
+			return Op{Kind: KStats}
+		}
+		return Op{Kind: k, Count: g.Cfg.Churn + r.Intn(300)}
 	case KAdvance:
 		if g.Cfg.DensePolling {
 			return Op{Kind: KAdvance, Dur: vlib.Pick(r, []time.Duration{time.Nanosecond, time.Millisecond, 3 * time.Millisecond, 4 * time.Millisecond, 7 * time.Millisecond, 9 * time.Millisecond, 9*time.Millisecond + 999*time.Microsecond})}
